@@ -229,8 +229,8 @@ WEIGHTS_C13 = dict(update=0.1, nochange=0.03, failed=0.02, register=0.35, run=0.
 
 def run(ctx, cid="C12"):
     import logging
-    logging.getLogger("deep").setLevel(logging.CRITICAL + 1)
-    logging.getLogger().setLevel(logging.CRITICAL + 1)
+    from ..lib.quiet import quiet_logging
+    quiet_logging()
     weights = WEIGHTS_C12 if cid == "C12" else WEIGHTS_C13
     ctx.rule = ("histories of 3-25 operations drawn from {poll update (new hash, 0-3 tracepoints), no change, transport error, "
                 "malformed answer, register (3 registrations share 2 lines), unregister (any handle ever returned, repeated, or "
